@@ -47,10 +47,21 @@ Proof. rewrite src_ts_rates_eq, src_ts_tabulate_eq. reflexivity. Qed.
 Theorem src_setup_ts_rates_self_eq J ls li n dt : src_setup_ts_rates_self J ls li n dt = setup_ts_rates J J ls li ls li n dt.
 Proof. apply src_setup_ts_rates_eq. Qed.
 
+Theorem src_ts_time_delays_eq a b : src_ts_time_delays a b = ts_time_delays a b.
+Proof. reflexivity. Qed.
+
+Theorem src_ts_visibilities_eq same J1 J2 a b ls1 li1 ls2 li2 n :
+  src_ts_visibilities same J1 J2 a b ls1 li1 ls2 li2 n = setup_ts_visibilities same J1 J2 a b ls1 li1 ls2 li2 n.
+Proof.
+  unfold src_ts_visibilities, setup_ts_visibilities. cbv zeta. rewrite !src_setup_ts_rates_eq, src_ts_time_delays_eq.
+  destruct same; reflexivity.
+Qed.
+
 Theorem src_ts_visibilities_identical_eq J ls li n :
   src_ts_visibilities_identical J ls li n = setup_ts_visibilities_identical J ls li n.
 Proof.
-  unfold src_ts_visibilities_identical, setup_ts_visibilities_identical. rewrite src_setup_ts_rates_eq.
+  unfold src_ts_visibilities_identical, setup_ts_visibilities_identical. rewrite src_ts_visibilities_eq.
+  unfold setup_ts_visibilities. cbv zeta. cbn [fst snd].
   destruct (setup_ts_rates J J ls li ls li n 0) as [[ss ii] si]. reflexivity.
 Qed.
 
@@ -66,3 +77,8 @@ Theorem src_ts_wrappers J ls li n dt :
   src_setup_ts_rates_self J ls li n dt = setup_ts_rates J J ls li ls li n dt /\
   src_ts_visibilities_identical J ls li n = setup_ts_visibilities_identical J ls li n.
 Proof. split; [apply src_setup_ts_rates_self_eq|apply src_ts_visibilities_identical_eq]. Qed.
+
+Theorem src_ts_free_function same J1 J2 a b ls1 li1 ls2 li2 n :
+  src_ts_time_delays a b = ts_time_delays a b /\
+  src_ts_visibilities same J1 J2 a b ls1 li1 ls2 li2 n = setup_ts_visibilities same J1 J2 a b ls1 li1 ls2 li2 n.
+Proof. split; [apply src_ts_time_delays_eq|apply src_ts_visibilities_eq]. Qed.
